@@ -154,7 +154,7 @@ class View:
 
 BUILTIN_EXC = {"ValueError", "TypeError", "IndexError", "KeyError", "Exception", "ZeroDivisionError",
                "AttributeError", "NotImplementedError", "RuntimeError", "StopIteration", "AssertionError",
-               "LookupError", "ArithmeticError", "OSError", "EOFError"}
+               "LookupError", "ArithmeticError", "OSError", "EOFError", "UnboundLocalError", "NameError"}
 
 
 def assigned_names(stmts):
@@ -328,6 +328,10 @@ class Interp:
             return NOT_IMPLEMENTED
         if self.lib.has_builtin(name):
             return LibFn(name)
+        root = getattr(self, "root_node", None)
+        if root is not None and name in assigned_names(getattr(root, "body", [])):
+            # a local variable of the function under verification that no statement on this path has bound
+            raise PyRaise("UnboundLocalError", "local variable %r referenced before assignment" % name, node)
         self.err(node, "unknown name %r" % name)
 
     def e_Attribute(self, node, env):
